@@ -252,7 +252,7 @@ def run(chk):
                 "(1..5000 random bytes) / an empty file; 2-5 calls from {Tdf.new, copy, open+enter, a later mutation of any TDF "
                 "path}; after every call: bytes of every path before/after, exception class; oracle: the property's clauses "
                 "on the implementation alone; correspondence: Fs.v fs_new / fs_copy / fs_open on the same file-system state; "
-                "non-trivial = a creating/copying call or a refused open")
+                "plus targets given as relative paths (bare name, ./name, sub/name, ../dir/name) with the current directory different from the source's; non-trivial = a creating/copying call or a refused open")
     rng = common.rng_for(chk.seed, "C17")
     n = 250 if chk.tier == "quick" else 4000
     work = os.path.join(chk.work, "fs")
@@ -262,6 +262,7 @@ def run(chk):
         if chk.n_found() >= 3:
             break
     long_lived(chk, rng, work)
+    relative_targets(chk, rng, work)
     # independence of a copy under the full container engine: mutate the copy, then the original
     from basictdf import Tdf
     for j in range(5 if chk.tier == "quick" else 60):
@@ -285,6 +286,81 @@ def run(chk):
         if open(fname(work, 2), "rb").read() != copy_now:
             chk.violation("C17: mutating the original changed the copy", {"scenario": "independence: copy, mutate original", "seed": [chk.seed, j]}, True)
             break
+
+
+def relative_targets(chk, rng, work):
+    """targets given as RELATIVE paths (a bare file name, ./name, sub/name) while the current directory is not the
+    directory of the source: the target is what that path means for the process — the file of that name in the current
+    directory —, the existence check and the write concern the same file, and no file anywhere else is touched"""
+    from basictdf import Tdf
+    a, b = os.path.join(work, "relA"), os.path.join(work, "relB")
+    cwd0 = os.getcwd()
+    try:
+        for j in range(24 if chk.tier == "quick" else 200):
+            for d in (a, b):
+                shutil.rmtree(d, ignore_errors=True)
+                os.makedirs(os.path.join(d, "sub"))
+            src = os.path.join(a, "walk.tdf")
+            open(src, "wb").write(tdf_bytes(rng, work, rng.randrange(0, 3)))
+            name = rng.choice(["backup.tdf", "walk.tdf", "x"])
+            rel = rng.choice([name, "./" + name, "sub/" + name, os.path.join("..", "relB", name)])
+            for d in (a, b):                              # files of that name may already exist in either directory
+                for sub in ("", "sub"):
+                    if rng.random() < 0.5 and os.path.join(d, sub, name) != src:
+                        open(os.path.join(d, sub, name), "wb").write(b"existing file in %s/%s " % (os.path.basename(d).encode(), sub.encode()) * 3)
+            os.chdir(b)
+            target = os.path.normpath(os.path.join(b, rel))
+            existed = os.path.exists(target)
+
+            def snap():
+                out = {}
+                for root, _dirs, files in os.walk(work):
+                    if os.path.basename(root) in ("relA", "relB", "sub") and ("relA" in root or "relB" in root):
+                        for f in files:
+                            out[os.path.join(root, f)] = open(os.path.join(root, f), "rb").read()
+                return out
+            before = snap()
+            call = rng.choice(["copy", "copy", "new"])
+            try:
+                if call == "copy":
+                    t = Tdf(src if j % 2 else os.path.join("..", "relA", "walk.tdf")).copy(rel)
+                else:
+                    with scripted_clock():
+                        Clock.now = T0 + j
+                        t = Tdf.new(rel)
+                rc = 0
+            except Exception as e:
+                rc = err_code(e)
+            after = snap()
+            os.chdir(cwd0)
+            chk.note_case(("relative target", call, rel, existed, j), True)
+            chk.count("relative target: %s -> %s" % (call, "refused" if rc else "ok"))
+            found = None
+            for f in sorted(set(before) | set(after)):
+                if f != target and before.get(f) != after.get(f):
+                    found = "the file %s %s although the target was %r in the current directory %s" % (
+                        os.path.relpath(f, work), "appeared" if f not in before else "disappeared" if f not in after else "changed", rel,
+                        os.path.relpath(b, work))
+            if found is None:
+                if existed:
+                    if rc != common.ERR["FileExistsError"]:
+                        found = "%s(%r): the target exists but the call %s" % (call, rel, "succeeded" if rc == 0 else "raised error %d, not FileExistsError" % rc)
+                    elif after.get(target) != before.get(target):
+                        found = "%s(%r) was refused but the existing target changed" % (call, rel)
+                elif rc != 0:
+                    found = "%s(%r) to a path that does not exist was refused (error %d)" % (call, rel, rc)
+                elif call == "copy" and after.get(target) != before.get(src):
+                    found = "copy(%r): no byte-identical copy at %s" % (rel, os.path.relpath(target, work))
+                elif call == "new" and (target not in after or new_file_violation(after[target], T0 + j)):
+                    found = "Tdf.new(%r): no well-formed empty container at %s" % (rel, os.path.relpath(target, work))
+            if found:
+                chk.violation("C17: " + found, {"scenario": "relative target", "call": call, "target_as_given": rel, "cwd": "relB",
+                                               "source": "relA/walk.tdf", "files_before": sorted(os.path.relpath(f, work) for f in before)}, True)
+                return
+    finally:
+        os.chdir(cwd0)
+        for d in (a, b):
+            shutil.rmtree(d, ignore_errors=True)
 
 
 def long_lived(chk, rng, work):
